@@ -866,6 +866,15 @@ func (l s1Loader) bulk(kind string, keys []int, olds []int) (map[int]int, error)
 			}
 		}
 		c.Err = errLoader
+	case "errnotfound":
+		// a bulk loader that fails with an error wrapping ErrNotFound: for a bulk load that is a failure like any other
+		// (absence is expressed per key, by leaving the key out of the map), the cache stays as it is
+		for _, k := range sorted {
+			if (a.Sel>>(k%8))&1 == 1 {
+				res[k] = r.newVal(a)
+			}
+		}
+		c.Err = fmt.Errorf("verif: bulk backend: %w", otter.ErrNotFound)
 	case "errextra":
 		// an error together with a map that also holds keys nobody asked for: a failed load leaves the cache unchanged
 		for _, k := range sorted {
